@@ -350,6 +350,41 @@ def run_kinds(res, tag, consts, work):
     os.unlink(out)
 
 
+def run_tool_rollback(res, tier, work):
+    """C04 at the level of the tool: in every scenario whose push is refused at some patch, the driver undoes the
+    file patches of that patch (rename undo records, permissions, existence live in apply/common.rs, not in the
+    library): the tree left behind must be the reference tree, i.e. the state before the refused patch."""
+    import p_tool, ws, random
+    from multiprocessing import Pool
+    rnd = random.Random(seed())
+    out, st = p_tool.enumerate_scenarios(res, 'tool-rollback', 'TreesSmall' if tier == 'quick' else 'TreesAll', 'TRUE', 2, 'Cfgs_one', work, 'TRUE')
+    lines = [l for l in open(out, errors='replace') if l.startswith('"{') and '\\"exit\\":1' in l]
+    os.unlink(out)
+    pick = rnd.sample(lines, min(len(lines), 1500 if tier == 'quick' else 20000))
+    jobs = []
+    for li, line in enumerate(pick):
+        sc = json.loads(json.loads(line))
+        o = sc['outs'][0]
+        if o['out']['adversarial'] or o['out']['exit'] != 1:
+            continue
+        cfg = dict(o['cfg'], names=1) if li % 4 == 1 else o['cfg']
+        jobs.append((sc, cfg, o['out'], 1 + li % 3, None))
+    with Pool(12) as pool:
+        outs = pool.map(p_tool.run_one, jobs, chunksize=16)
+    bad = 0
+    for (sc, cfg, o, threads, _), (probs, rc, se) in zip(jobs, outs):
+        for cat, msg in probs:
+            if cat in ('crash', 'tree'):
+                bad += 1
+                res.violation('tool-rollback', 'after a refused patch the tree is not the tree before that patch: %s (threads %d)' % (msg, threads),
+                              {'tree0': sc['tree0'], 'series': sc['series'], 'cfg': cfg, 'threads': threads, 'reference': o,
+                               'observed': {'exit': rc, 'stderr': se, 'problems': [list(x) for x in probs if x[0] != '_rej']}})
+    res.cov['parts']['tool-rollback'].update({'runs_with_refused_patch': len(jobs), 'bad': bad})
+    res.cov['traces_validated_against_impl'] += len(jobs)
+    res.cov['evaluations'] += len(jobs)
+    ws.cleanup_all()
+
+
 def check(prop, tier):
     res = Result(prop, tier)
     work = scratch(prop)
@@ -366,6 +401,7 @@ def check(prop, tier):
         if prop == 'C04':
             for tag, consts in KINDS[tier]:
                 run_kinds(res, tag, consts, work)
+            run_tool_rollback(res, tier, work)
     finally:
         shutil.rmtree(work, ignore_errors=True)
     res.cov['exhaustive'] = True
